@@ -193,7 +193,7 @@ def run(case):
         x = []
         for (u, v) in E:
             val = H[u][v].get("flow")
-            if val is None or val < -1e-9:
+            if val is None or val < 0:  # exact: the library's own decompositions reject a corrected graph with a value of -1e-14
                 viol.append({"kind": "mef_negative_or_missing", "msg": f"{ctx}: corrected value on {(u, v)} is {val}"})
                 return
             if wt == "int" and not isinstance(val, int):
@@ -238,6 +238,8 @@ def run(case):
         one("plain", {}, wt)
     one("noise-", {}, "int")
     one("noise+", {}, "int")
+    one("noise-", {}, "float")   # a variable at its bound 0 read back as -5e-10: the corrected value must still be non-negative
+    one("noise+", {}, "float")
     one("numpy", {}, "int")
     if not case["full"] or len(viol) > 3:
         return _ret(viol, nt, tags)
